@@ -155,7 +155,7 @@ impl<T: El> Interp<T> {
       "splice" => {
         argc(6)?;
         let (a, b, s) = (script::bound(t[2])?, script::bound(t[3])?, It::parse(t[4])?);
-        self.room(s.items.len())?;
+        self.room(s.items.iter().flatten().count())?;
         let si = ScriptIter::<T>::new(s);
         scoped(|| v.splice((a, b), si)).map(|it| Kind::Splice { it, src: i })
       }
